@@ -31,6 +31,7 @@ import (
 	"hash/fnv"
 	"os"
 	"os/exec"
+	"runtime"
 	"strconv"
 	"strings"
 	"time"
@@ -65,6 +66,10 @@ func runCase(c *Case, next func(r *run) *Step) *outcome {
 	}
 	if c.Prim == "fifomap" && (c.Family == "first-lock-gated" || c.Family == "first-lock-barrier") {
 		return runFirstLock(c)
+	}
+	if c.Procs > 0 {
+		old := runtime.GOMAXPROCS(c.Procs)
+		defer runtime.GOMAXPROCS(old)
 	}
 	r := newRun(c)
 	header := r.header()
